@@ -75,3 +75,48 @@ Example C13_no_internal_example :
                                             [Row 2 0 (TrEv 5) (TgState 1) true ActCall None] [] HAlways)) [] [] [] 0]
                        [0] [Row 1 0 (TrEv 4) (TgState 1) false ActCall None] [] HNone).
 Proof. cbn. repeat split. Qed.
+
+(* ---- back and backmp11 ---- *)
+From Msm Require Import Spec Lemmas_Sim Lemmas_Core Lemmas_SpecRun.
+
+(* Both engines are proved to be the specification function of Spec.v on the core fragment (Properties_C01); hence, for
+   every core definition whose outermost machine has no history of its own, the same switch policy, every dispatch
+   strategy / compile policy of backmp11, every history of start() / stop() alternating with events in between and every
+   guard valuation: the two runs consist of the same behaviour invocations in the same order with the same arguments and
+   the same active ids at every level after every operation.  They may differ in exactly two places, both outside what
+   the property compares: the numeric result code (both satisfy the same handled / rejected outcome), and the ids the
+   outermost machine's own entry behaviour reads from its fsm argument when a stopped machine is started again. *)
+Theorem C13_back_backmp11_same_behaviour : forall cfB cfM md l,
+  c_be cfB = Back -> c_fct cfB = false -> c_be cfM = Mp11 -> c_pol cfB = c_pol cfM ->
+  flat_events md -> core (md_root md) -> m_hist (md_root md) = HNone ->
+  depth (md_root md) + 2 <= default_fuel ->
+  back_start_queues = true -> mp11_entry_throw_resets = true ->
+  bracketed false l ->
+  Forall2 same_step (run cfB md l) (run cfM md l).
+Proof. exact back_mp11_same_behaviour. Qed.
+Print Assumptions C13_back_backmp11_same_behaviour.
+
+(* with one start() nothing but the numeric result code can differ *)
+Theorem C13_back_backmp11_same_behaviour_one_start : forall cfB cfM md l,
+  c_be cfB = Back -> c_fct cfB = false -> c_be cfM = Mp11 -> c_pol cfB = c_pol cfM ->
+  flat_events md -> core (md_root md) -> m_hist (md_root md) = HNone ->
+  depth (md_root md) + 2 <= default_fuel ->
+  back_start_queues = true -> mp11_entry_throw_resets = true ->
+  bracketed false l -> one_start l ->
+  Forall2 same_step_strict (run cfB md l) (run cfM md l).
+Proof. exact back_mp11_same_behaviour_one_start. Qed.
+Print Assumptions C13_back_backmp11_same_behaviour_one_start.
+
+(* the probed engine facts hold on this tree, the hypotheses are met by a nested definition with two regions and
+   history, and on it the two differences above do occur (result code 3 against 1; ids [0] against [1] at the restart) *)
+Example C13_back_backmp11_example :
+  back_start_queues = true /\ mp11_entry_throw_resets = true /\
+  core (md_root ex_core_md) /\ bracketed false ex_core_ops /\ flat_events ex_core_md /\
+  m_hist (md_root ex_core_md) = HNone /\ depth (md_root ex_core_md) + 2 <= default_fuel /\
+  run (Cfg Back false 0 false) ex_core_md ex_core_ops <> run (Cfg Mp11 false 0 false) ex_core_md ex_core_ops.
+Proof.
+  split; [reflexivity|]. split; [reflexivity|]. split; [exact ex_core_ok|].
+  split; [cbn; repeat split; discriminate|].
+  split; [intros [|e]; reflexivity|].
+  split; [reflexivity|]. split; [vm_compute; repeat constructor | vm_compute; discriminate].
+Qed.
